@@ -50,13 +50,17 @@ def _cfg_rng(seed):
 
 
 _CHECK = None
+_KNOWN_KEYS = set()
 
 
 def _worker_init(factory_mod, factory_name):
-    global _CHECK
+    global _CHECK, _KNOWN_KEYS
     faulthandler.enable()
+    import signal
+    faulthandler.register(signal.SIGUSR1, all_threads=True)      # kill -USR1 <worker pid> dumps every thread's stack
     mod = __import__(factory_mod, fromlist=[factory_name])
     _CHECK = getattr(mod, factory_name)()
+    _KNOWN_KEYS = set(load_known(_CHECK.prop))
 
 
 def _run_chunk(args):
@@ -99,9 +103,14 @@ def _run_chunk(args):
         out["states"].extend(r.get("states", ()))
         if len(out["samples"]) < 2 and r.get("sample") is not None:
             out["samples"].append(r["sample"])
+        fresh_here = False
         for v in r.get("violations") or ([r["violation"]] if r.get("violation") else []):
             out["violations"].append({"index": i, "seed": seed, "cfg": cfg, "violation": v,
                                       "trace": r.get("trace"), "digest": r["digest"]})
+            fresh_here |= v.get("key") not in _KNOWN_KEYS
+        if fresh_here:
+            out["stopped_early"] = True      # an unlisted violation decides the batch: no need to finish the chunk
+            break
     out["states"] = list(set(out["states"]))
     return out
 
@@ -294,6 +303,7 @@ def main(factory_mod, factory_name, argv=None):
     agg = {"n": 0, "violations": [], "digests": set(), "nontrivial": 0, "counters": {}, "decisions": 0,
            "switches": 0, "sim_s": 0.0, "states": set(), "samples": [], "errors": [], "twice_ok": 0,
            "twice_bad": [], "extra": {}}
+    known_keys = set(load_known(chk.prop))
     ctx = multiprocessing.get_context("fork")
     jobs = max(1, a.jobs)
     submitted = 0
@@ -350,6 +360,11 @@ def main(factory_mod, factory_name, argv=None):
                 for f in pending:
                     f.cancel()
                 break
+            if any(v["violation"].get("key") not in known_keys for v in agg["violations"]):
+                # an unlisted violation decides the outcome; finish what is running, submit nothing new
+                for f in pending:
+                    f.cancel()
+                nxt = n_runs
             submit_more()
         if timed_out:
             for f in pending:
